@@ -12,8 +12,12 @@ class StubRaise(Exception):
     """What a stub child raises when told to fail (an ordinary Exception that is not a ParserError)."""
 
 
+LAST_RAISED = []          # exception objects raised by failing stubs (identity is compared by the harnesses)
+
+
 class Stub(Op):
     """Child node stand-in: charges the counter through the REAL Op.eval, logs, returns a given value."""
+    RAISE = None          # factory idx -> exception for failing stubs (default StubRaise)
 
     def __init__(self, log, idx, result=None, raises=False):
         self.log = log
@@ -26,7 +30,9 @@ class Stub(Op):
         Op.eval(self, state)
         self.log.append(('done', self.idx))
         if self.raises:
-            raise StubRaise(self.idx)
+            exc = (Stub.RAISE or StubRaise)(self.idx)
+            LAST_RAISED.append(exc)
+            raise exc
         return self.result
 
     def __repr__(self):
